@@ -415,7 +415,32 @@ def check(ctx):
     for rule, key, ok, where, what, detail in sub.got:
         if rule == 'R3.5-initialisation-check':
             ctx.ob('R2.3-rejection', 'undefined-name/%s' % key, ok, where, what, detail)
-    ctx.floor('R2.1-users', 7)
+    # growth laws are the third user of compiled expressions: the growth rate of a StateDependentVolume is its expression at the
+    # (state, params, time) it is asked about (C11 R11.5) - re-emitted here
+    from . import c11
+    ctx.prog.mod('simulator'); ctx.prog.mod('simulator.pxd')
+    sub = SubCtx(ctx)
+    c11.check_growth(sub)
+    n_g = 0
+    for rule, key, ok, where, what, detail in sub.got:
+        if rule == 'R11.5-growth-law' and key.startswith('StateDependentVolume'):
+            ctx.ob('R2.1-users', 'growth-law/%s' % key, ok, where, what + '; the growth rate g is the compiled growth law at (state, params, time)', detail)
+            n_g += 1
+    if not n_g:
+        raise AnalysisError('anchor vanished: growth law of StateDependentVolume')
+    f = util.inline_pure_temps(ctx.fn('types:StateDependentVolume.setup'))
+    a = [x.arg for x in f.args.args[1:]]
+    st = [k(util.stmt_key(s_)) for s_ in f.body if isinstance(s_, ast.Assign) and k(src(s_.targets[0])) == 'self.growth_rate']
+    ok = len(a) == 4 and st == ['self.growth_rate=%s.parse_general_expression(%s)' % (a[3], a[2])]
+    ctx.ob('R2.1-users', 'growth-law/StateDependentVolume.setup', ok, ctx.loc('types', f),
+           "the growth law is the model's parse of the string handed in, unchanged", str(st))
+    f = util.inline_pure_temps(ctx.fn('types:Model.parse_general_expression'))
+    a = [x.arg for x in f.args.args[1:]]
+    body = [k(util.stmt_key(s_)) for s_ in f.body if not (isinstance(s_, ast.Expr) and isinstance(s_.value, ast.Constant))]
+    ok = body == ['returnparse_expression(%s,self.species2index,self.params2index)' % a[0]]
+    ctx.ob('R2.1-users', 'growth-law/Model.parse_general_expression', ok, ctx.loc('types', f),
+           "parse_general_expression compiles the string over the model's species and parameter dictionaries", str(body))
+    ctx.floor('R2.1-users', 10)
     ctx.floor('R2.1-node-semantics', 28)
     ctx.floor('R2.2-translation', 9)
     ctx.floor('R2.3-rejection', 3)
